@@ -171,6 +171,20 @@ func TestC02(t *testing.T) {
 				}
 			}
 		}
+		// long ranges: lengths around the library's request-size constant and beyond (nothing in VerifyRange
+		// may depend on them), clean and with one defect just before / at / after those indices and at the end
+		for _, n := range []int{int(header.MaxRangeRequestSize) - 1, int(header.MaxRangeRequestSize), int(header.MaxRangeRequestSize) + 1, 2*int(header.MaxRangeRequestSize) + 3} {
+			tr, els := build(rng, now, n, 0, "none", rng.Bool())
+			one(tr, els, fmt.Sprintf("long/n%d/none", n), true)
+			for _, pos := range []int{int(header.MaxRangeRequestSize) - 1, int(header.MaxRangeRequestSize), int(header.MaxRangeRequestSize) + 1, n - 1} {
+				if pos < 0 || pos >= n {
+					continue
+				}
+				d := []string{"typeerr", "gap", "gaplinked", "dup", "wrongchain", "future", "nil", "softerr"}[rng.Intn(8)]
+				tr, els := build(rng, now, n, pos, d, rng.Bool())
+				one(tr, els, fmt.Sprintf("long/n%d/p%d/%s", n, pos, d), true)
+			}
+		}
 		// nil trusted header
 		_, els := build(rng, now, 3, 0, "none", false)
 		one(nil, els, "niltrusted", false)
